@@ -44,6 +44,9 @@ def discharge_paths(rep, scen, fn_label, body, post, pre, native=None):
     for ctx, (kind, res) in explore(lambda: (Ctx.cur.pc.extend(pre), body())[1]):
         npaths += 1
         tag = f"{scen}@path{npaths}"
+        if kind == "unsupported":
+            rep.obligation(f"{tag}.path-outside-the-verified-subset", {"status": "unknown", "backend": "symex", "time_s": 0, "reason": str(res)[:200]}, fn_label, "post")
+            continue
         if kind == "exc":
             r = {"status": "refuted", "backend": "symex", "time_s": 0.0, "model": _model_of(ctx.pc)}
             rep.obligation(f"{tag}.no-exception-on-valid-input[{type(res).__name__}]", r, fn_label, "safety")
@@ -406,7 +409,10 @@ def scen_rejected(rep):
             results = []
             for ctx, (kind, res) in explore(lambda: (Ctx.cur.pc.extend([N >= 1, n >= 1, na >= 1, m >= 1]), body())[1]):
                 rep.paths += 1
-                if kind == "exc":
+                if kind == "unsupported":
+                    rep.obligation(f"rejected[{name},fail_at={fp}].path-outside-the-verified-subset", {"status": "unknown", "backend": "symex", "time_s": 0, "reason": str(res)[:200]},
+                                   "class_BaseTransform/class_BaseGeo (exceptional postcondition)", "exceptional")
+                elif kind == "exc":
                     results.append(("foreign-exception", False, res))
                 else:
                     results.append((res[0], res[1], None))
